@@ -499,6 +499,10 @@ def call_builtin(ex, reg, st, f: VBuiltin, args, kwargs, node):
                     return [(st, VStr(mk_str("")))]
                 parts = []
                 for i, it in enumerate(items):
+                    if isinstance(it, VOpt) and it.ty.elem == T_STR:
+                        # an optional string inside the joined list: None would be a TypeError
+                        ex.oblige(st, f"safety[TypeError:join over None@{ln}]", z3.Not(it.ty.is_none(it.t)), lineno=ln)
+                        it = VStr(it.ty.val(it.t))
                     if not isinstance(it, VStr):
                         ex.oblige(st, f"safety[TypeError:join non-str@{ln}]", z3.BoolVal(False), lineno=ln)
                         return []
@@ -690,6 +694,11 @@ def spec_builtin(ex, reg, st, name, args, kwargs, node) -> Val:
         if isinstance(el, TOpt):
             return VStr(uf("join_opt", STR, t.sort(), STR)(mk_str("\n"), t))
         return VStr(join(st, mk_str("\n"), t))
+    if name == "join_sep":
+        el, t = ex.as_seq(st, args[1])
+        if t is None:
+            return VStr(mk_str(""))
+        return VStr(join(st, args[0].t, t))
     if name == "join_lf":
         el, t = ex.as_seq(st, args[0])
         if t is None:
